@@ -806,8 +806,15 @@ func ruleMapStreamError(c *Ctx, r *R) {
 		// Next must return the helper's result as its error
 		instrs(fn, func(b *ssa.BasicBlock, i int, in ssa.Instruction) {
 			if ret, ok := in.(*ssa.Return); ok && len(ret.Results) == 2 {
-				if call, ok := returnedValue(ret, 1).(*ssa.Call); ok && staticCallee(&call.Call) == wf {
+				rv := returnedValue(ret, 1)
+				if call, ok := rv.(*ssa.Call); ok && staticCallee(&call.Call) == wf {
 					handsOn = true
+				}
+				// return s.finish(): the helper's (value, error) pair handed on as it is
+				if ex, ok := rv.(*ssa.Extract); ok {
+					if call, ok := ex.Tuple.(*ssa.Call); ok && staticCallee(&call.Call) == origin(wf) && ex.Index == origin(wf).Signature.Results().Len()-1 {
+						handsOn = true
+					}
 				}
 			}
 		})
